@@ -34,10 +34,20 @@ impl<'a> RegExp<'a> {
         if config.is_case_insensitive_matching {
             Self::convert_for_case_insensitive_matching(test_cases);
         }
+        #[cfg(grex_verif)]
+        crate::verif::point("regexp.after_case");
         Self::sort(test_cases);
+        #[cfg(grex_verif)]
+        crate::verif::point("regexp.after_sort");
         let grapheme_clusters = Self::grapheme_clusters(test_cases, config);
+        #[cfg(grex_verif)]
+        crate::verif::point("regexp.after_clusters");
         let mut dfa = Dfa::from(&grapheme_clusters, true, config);
+        #[cfg(grex_verif)]
+        crate::verif::point("regexp.after_dfa");
         let mut ast = Expression::from(dfa, config);
+        #[cfg(grex_verif)]
+        crate::verif::point("regexp.after_expr");
 
         if config.is_start_anchor_disabled && config.is_end_anchor_disabled {
             let mut regex = Self::convert_expr_to_regex(&ast, config);
@@ -50,11 +60,15 @@ impl<'a> RegExp<'a> {
             if !Self::is_each_test_case_matched_after_rotating_alternations(
                 &regex, &mut ast, test_cases,
             ) {
+                #[cfg(grex_verif)]
+                crate::verif::point("regexp.fallback_unminimized");
                 dfa = Dfa::from(&grapheme_clusters, false, config);
                 ast = Expression::from(dfa, config);
                 regex = Self::convert_expr_to_regex(&ast, config);
 
                 if !Self::regex_matches_all_test_cases(&regex, test_cases) {
+                    #[cfg(grex_verif)]
+                    crate::verif::point("regexp.fallback_literals");
                     let mut exprs = vec![];
                     for cluster in grapheme_clusters {
                         let literal = Expression::new_literal(cluster, config);
@@ -118,12 +132,16 @@ impl<'a> RegExp<'a> {
             .map(|it| GraphemeCluster::from(it, config))
             .collect_vec();
 
+        #[cfg(grex_verif)]
+        crate::verif::point("regexp.clusters_created");
         if config.is_char_class_feature_enabled() {
             for cluster in clusters.iter_mut() {
                 cluster.convert_to_char_classes();
             }
         }
 
+        #[cfg(grex_verif)]
+        crate::verif::point("regexp.classes_converted");
         if config.is_repetition_converted {
             for cluster in clusters.iter_mut() {
                 cluster.convert_repetitions();
@@ -139,6 +157,8 @@ impl<'a> RegExp<'a> {
         test_cases: &[String],
     ) -> bool {
         for _ in 1..test_cases.len() {
+            #[cfg(grex_verif)]
+            crate::verif::point("regexp.rotation");
             if Self::regex_matches_all_test_cases(regex, test_cases) {
                 return true;
             } else if let Expression::Alternation(options, _, _, _) = expr {
